@@ -92,6 +92,10 @@ pub struct Session {
     /// Mutate message id -> tainted references it re-sends: the taint ends only if the client really writes
     /// that message's data for the entity (an unreliable re-send may be lost or skipped as outdated).
     pub heal_pending: BTreeMap<u64, Vec<(u64, Kind)>>,
+    /// References carried by the mutate messages of the server frame being drained (message id, tick,
+    /// cells): their effect on the taints is applied after the frame's update message, whatever the order
+    /// in which the library emitted the two.
+    pub frame_refs: Vec<(u64, u32, Vec<(u64, Kind)>)>,
     pub sev_sent: BTreeMap<u32, Vec<SentEv>>,
     pub sev_seen: Vec<(SEv, u32)>,
     /// Value of the global event counter when the session started.
@@ -153,6 +157,7 @@ impl Session {
             p_taint: BTreeSet::new(),
             ent_taint: BTreeMap::new(),
             heal_pending: BTreeMap::new(),
+            frame_refs: Vec::new(),
             sev_sent: BTreeMap::new(),
             sev_seen: vec![],
             first_seq,
